@@ -30,6 +30,44 @@ def TimeForm.read : TimeForm → Bool
   | .offset => false
   | _ => true
 
+/-! ### schema validation inside signature verification
+
+`SecurityContext._check_signature` validates the element whose signature it is about to verify against the SAML core
+schemas (`validate_doc_with_schema`) and raises `SignatureError` when that fails.  An extension `<saml:Condition>`
+never validates there (the abstract `ConditionAbstractType` needs an `xsi:type` that resolves to a type the validator
+knows; the values `condition_ok` understands are namespace names, not type names).  So a signature over an element
+that holds an extension condition behaves exactly like a signature that does not verify: the signed Response over its
+clear assertions, a signed assertion over itself.  Unsigned carriers are not validated. -/
+
+def Assertion.hasExt (a : Assertion) : Bool :=
+  match a.conditions with
+  | some c => !c.extra.isEmpty
+  | none => false
+
+def schemaSig (s : Sig) (ext : Bool) : Sig := if s.present && ext then .corrupted else s
+
+/-- The message as signature verification sees it. -/
+def schemaView (r : Response) : Response :=
+  { r with
+    sig := schemaSig r.sig ((plainOf r).any (·.hasExt))
+    assertions := r.assertions.map fun a => { a with sig := schemaSig a.sig a.hasExt } }
+
+/-- Without extension conditions nothing changes. -/
+theorem schemaView_id (r : Response) (h : ∀ a ∈ r.assertions, a.hasExt = false) : schemaView r = r := by
+  have h1 : (plainOf r).any (·.hasExt) = false := by
+    apply List.any_eq_false.mpr
+    intro a ha
+    have := h a (List.mem_filter.mp ha).1
+    simp [this]
+  have h2 : r.assertions.map (fun a => { a with sig := schemaSig a.sig a.hasExt }) = r.assertions := by
+    conv => rhs; rw [← List.map_id r.assertions]
+    apply List.map_congr_left
+    intro a ha
+    simp [schemaSig, h a ha]
+  unfold schemaView
+  rw [h1, h2]
+  simp [schemaSig]
+
 /-- The gate in front of every entry point: a message with a timestamp the library does not read is refused. -/
 def lexGate (f : TimeForm) (o : Outcome) : Outcome :=
   if f.read then o else .rejected .timeForm
@@ -37,6 +75,8 @@ def lexGate (f : TimeForm) (o : Outcome) : Outcome :=
 def processLex (f : TimeForm) (cfg : Cfg) (env : Env) (r : Response) : Outcome := lexGate f (process cfg env r)
 def processFactoryLex (f : TimeForm) (cfg : Cfg) (env : Env) (r : Response) : Outcome :=
   lexGate f (processFactory cfg env r)
+def processRespFactoryLex (f : TimeForm) (cfg : Cfg) (env : Env) (r : Response) : Outcome :=
+  lexGate f (processRespFactory cfg env r)
 def processAttrLex (f : TimeForm) (cfg : Cfg) (env : Env) (r : Response) : Outcome :=
   lexGate f (processAttr cfg env r)
 
